@@ -227,6 +227,8 @@ def showobs(o):
 def random_list(r, n):
     secs = ["", "A", "B", "C", "D d"]
     keys = ["x", "y", "z", "k1", "k2", "key six"]
+    if n > 28:          # long lists (dozens of entries per side: indices beyond 31 / 63) need more distinct keys
+        keys = keys + ["q%d" % i for i in range(40)]
     out = []
     seen = set()
     cur = r.choice(secs)
@@ -267,6 +269,8 @@ def check(pid, tier, seed):
     rnd = random.Random(seed)
     npairs = 400 if tier == "quick" else 6000
     rp = [(random_list(rnd, rnd.randint(0, 30)), random_list(rnd, rnd.randint(0, 30))) for _ in range(npairs)]
+    # long lists: 30..120 entries per side, many shared keys, override-only keys behind replaced ones
+    rp += [(random_list(rnd, rnd.randint(20, 120)), random_list(rnd, rnd.randint(30, 120))) for _ in range(npairs // 4)]
     evs = run_pairs(exe, rp, verdict)
     good = [e for e in evs if e is not None]
     acc = 0
@@ -290,7 +294,7 @@ def check(pid, tier, seed):
     samples = [{"base": show(b), "override": show(o), "expected": showobs(e)} for (b, o), e in list(zip(pairs, expect))[1000:1003]]
     cov = {"states": mc.distinct, "transitions": mc.generated, "traces_validated_against_impl": len(pairs) + acc,
            "evaluations": len(pairs) + len(rp), "distinct_nontrivial": nn,
-           "rule": "TLC: all pairs of duplicate-free entry lists of length <= %d over {group-less,A,B} x {x,y} (model-checked: %d pairs; exported and replayed through setters on newKeyFile/newIniFile/newKeyFile_with_options objects and parsed files: all %d pairs of length <= %d; %d pairs of length <= %d in which either side is a parsed file with header-only sections from {A,B} at varying positions; %d pairs of parsed files with value-less first keys: full extended dump of both inputs unchanged by the call) + %d random pairs of 0..30 entries validated by Trace_Merge + %d mixed histories with merges of parsed and built objects validated against the root specification (Trace_Econf). non-trivial = shared key, an empty side, or a re-opened section." % (
+           "rule": "TLC: all pairs of duplicate-free entry lists of length <= %d over {group-less,A,B} x {x,y} (model-checked: %d pairs; exported and replayed through setters on newKeyFile/newIniFile/newKeyFile_with_options objects and parsed files: all %d pairs of length <= %d; %d pairs of length <= %d in which either side is a parsed file with header-only sections from {A,B} at varying positions; %d pairs of parsed files with value-less first keys: full extended dump of both inputs unchanged by the call) + %d random pairs of 0..30 entries (a quarter of them 20..120 entries per side) validated by Trace_Merge + %d mixed histories with merges of parsed and built objects validated against the root specification (Trace_Econf). non-trivial = shared key, an empty side, or a re-opened section." % (
                maxlen + 1, mc.distinct, len(pairs), maxlen, len(hpairs), maxlen - 1, nin, len(rp), nmix),
            "samples": samples, "exhaustive": True,
            "trusted_base": ["TLC 1.8.0", "gcc ASan/UBSan", "drv.c"]}
